@@ -283,8 +283,14 @@ def splice(u, sp, job, workdir):
     # contracts as prototypes at the marker
     ctext = '#include "vt_contract.h"\n' + "\n".join(sp.defs) + "\n"
     contract_syms = {}
+    needed = set([job["target"]] + job["replace"])
     for key, clauses in sp.contracts.items():
-        f = resolve(u, key)
+        try:
+            f = resolve(u, key)
+        except Undecided:
+            if key in needed and key == job["target"]:
+                raise
+            continue  # contract of a function that is not lowered in this unit any more and not enforced here
         if f["c"] not in u.protos:
             raise Undecided("no prototype for %s" % key)
         sig = u.protos[f["c"]][0]
@@ -298,7 +304,12 @@ def splice(u, sp, job, workdir):
     enforced = None
     replaced = []
     for r in job["replace"]:
-        f = resolve(u, r)
+        try:
+            f = resolve(u, r)
+        except Undecided:
+            # the callee is no longer reachable from the lowered code (e.g. the call was removed): there is
+            # nothing to replace; the enforced contract is still checked and will say so if that matters
+            continue
         if f["c"] not in contract_syms:
             raise Undecided("job %s replaces %s which has no contract" % (job["name"], r))
         replaced.append(f["c"])
@@ -450,9 +461,18 @@ def cbmc_job(u, sp, job, workdir, tier):
             o["prestate"] = trace_prestate(r["trace"])
         res["obligations"].append(o)
     errs = [o for o in res["obligations"] if o["status"] not in ("SUCCESS", "FAILURE")]
-    if errs:
+    hard = [o for o in res["obligations"] if o["status"] == "FAILURE" and not o["description"].startswith("vt_cover:")]
+    unw = [o for o in hard if ".unwind." in o["id"] or "unwinding assertion" in o["description"]]
+    if unw:
+        res["reason"] = "unwinding bound insufficient (not a violation): " + "; ".join(o["id"] for o in unw[:4])
+        return res
+    if errs and not hard:
         res["reason"] = "back end returned status %s for %d obligations (solver error / resource limit), e.g. %s" % (errs[0]["status"], len(errs), errs[0]["id"])
         return res
+    if errs and hard:
+        # CBMC reports obligations downstream of a definite failure as UNKNOWN; the definite failures stand
+        res["obligations"] = [o for o in res["obligations"] if o["status"] in ("SUCCESS", "FAILURE")]
+        res["note_unknown"] = len(errs)
     nobody = [o for o in res["obligations"] if ".no-body." in o["id"]]
     if nobody:
         res["reason"] = "lowered code calls a function without body or contract: " + "; ".join(o["description"] for o in nobody[:5])
@@ -468,11 +488,11 @@ def cbmc_job(u, sp, job, workdir, tier):
     # a cover *name* is reached when at least one cover point carrying it is reachable with its condition true
     reached = set(o["description"] for o in covers if o["status"] == "FAILURE")
     unreached = sorted(set(o["description"] for o in covers) - reached)
-    if unreached:
+    failed = [o for o in real if o["status"] != "SUCCESS"]
+    if unreached and not failed:
         res["reason"] = "vacuity guard: cover point(s) unreachable: " + "; ".join(unreached)
         res["status"] = "UNDECIDED"
         return res
-    failed = [o for o in real if o["status"] != "SUCCESS"]
     res["status"] = "FAIL" if failed else "PASS"
     res["wall_s"] = round(time.time() - t0, 2)
     return res
@@ -646,6 +666,8 @@ def check(prop, tier, only_jobs=None, keep=False):
         mine = [j for j in sp.jobs if prop in j["props"] and (tier == "thorough" or j["tier"] == "quick")]
         if only_jobs:
             mine = [j for j in mine if j["name"] in only_jobs]
+        if os.environ.get("VT_JOB_FILTER"):
+            mine = [j for j in mine if re.search(os.environ["VT_JOB_FILTER"], j["name"])]
         if not mine:
             continue
         specs[unit] = sp
@@ -811,7 +833,10 @@ def write_evidence(prop, tier, seed, results, jobs, units, violations, known_hit
             fns[f["key"]] = {"cxx": f["key"], "c_symbol": f["c"], "source": f["loc"], "via": "enforced contract (job %s)" % r["job"]}
         for rep in r["replaced"]:
             if u:
-                f = resolve(u, rep)
+                try:
+                    f = resolve(u, rep)
+                except Undecided:
+                    continue
                 if not f["body"]:
                     trusted.add("assumed contract on body-less function %s" % f["key"])
         if u:
